@@ -36,7 +36,7 @@ func genNextRet(tier string, seed int64, only string) []*Case {
 		reps = 10
 	}
 	for r := 0; r < reps; r++ {
-		for _, scen := range []string{"unicast", "groupby", "publish", "behavior", "replay", "flatmap"} {
+		for _, scen := range []string{"unicast", "groupby", "window", "publish", "behavior", "replay", "flatmap"} {
 			if only != "" && only != scen {
 				continue
 			}
@@ -146,6 +146,27 @@ func runNextRet(c *Case) string {
 		}
 		send = func(v int) { dest.NextWithContext(ctx, v) }
 		subscribeLate = func() { group.Subscribe(obs) }
+	case "window":
+		// the first window of WindowWhen (boundary silent): values queue in it until somebody subscribes to the window
+		probe := &Probe{script: nil}
+		var win ro.Observable[int]
+		ro.WindowWhen[int](neverInt())(probe.Observable()).Subscribe(
+			ro.NewObserver(func(w ro.Observable[int]) {
+				if win == nil {
+					win = w
+				}
+			}, func(error) {}, func() {}))
+		probe.mu.Lock()
+		dest, ctx := probe.dest, probe.subCtx
+		probe.mu.Unlock()
+		if dest == nil || win == nil {
+			return "res " + c.id + " _flag=no-window"
+		}
+		for i := 0; i < k; i++ {
+			dest.NextWithContext(ctx, i+1)
+		}
+		send = func(v int) { dest.NextWithContext(ctx, v) }
+		subscribeLate = func() { win.Subscribe(obs) }
 	case "publish", "behavior", "replay":
 		// the multicast subjects: the consumer is blocked inside the delivery of a value that ANOTHER producer is sending;
 		// a second producer's Next returns only after its own value has been delivered (it waits for the subject)
